@@ -244,6 +244,7 @@ func (r *Report) writeEvidence(path string, nProved, violations int, samples []m
 		"SMT solvers z3 4.8.12, z3 5.1.0 (z3-new), cvc5 1.0.3 raced per obligation; go/types; golang.org/x/tools/go/packages v0.29.0",
 		"machine integers treated as mathematical integers (no overflow reasoning)",
 		"strings are an uninterpreted sort (equality, length, literals distinct)",
+		"a nil map and an empty map are the same value in the model: a write to a nil map (a run-time panic in Go) is not an obligation",
 	}
 	for _, t := range sortedKeys(trusted) {
 		tb = append(tb, "assumed: "+t)
